@@ -90,6 +90,18 @@ Theorem tric_minimal_halfwidth : forall p B r n, p = PTricCpp \/ p = PTricNp -> 
 Proof. exact tric_paths_minimal_halfwidth. Qed.
 Print Assumptions tric_minimal_halfwidth.
 
+(* the standard-orientation hypothesis of tric_minimal_halfwidth cannot be dropped: a cubic cell rotated about z
+   (positive diagonal, positive volume) makes the triclinic code return a non-minimal image although the minimum
+   is below half of every cell width.  Only compute_distances_core accepts such a cell (a Trajectory always
+   regenerates its vectors in standard orientation); known finding C05-core-nonstandard-orientation. *)
+Theorem minimal_halfwidth_nonstandard_orientation_refuted :
+  exists B r n, diag_posb B = true /\ lower_trib B = false /\ 0 < vol B /\
+    below_half_widths B (vadd r (comb B n)) /\
+    norm2 (vadd r (comb B n)) < norm2 (path_disp PTricCpp B r) /\
+    path_disp PTricCpp B r = vadd r (comb B (path_coef PTricCpp B r)).
+Proof. exact nonstandard_orientation_counterexample. Qed.
+Print Assumptions minimal_halfwidth_nonstandard_orientation_refuted.
+
 (* without a cell or with periodic=False: the plain difference *)
 Theorem nopbc_plain : forall opt boxes r B,
   path_disp (dispatch opt false boxes) B r = r /\ path_disp (dispatch opt true None) B r = r.
